@@ -637,3 +637,48 @@ Theorem c18_facts_decompose_guards : guards_of "qpd.decompose:decompose_qpd_inst
   ["len(instruction_ids) != len(map_ids)"; "map_ids[i] is None or map_ids[i] not in range(num_maps)"].
 Proof. reflexivity. Qed.
 Print Assumptions c18_facts_decompose_guards.
+
+(* ---------------- regenerated control skeletons (extension round) ----------------
+   tools/facts_c18.py slices the Python bodies of three entry points down to their guard-relevant control skeleton
+   (raise ValueError / return / enclosing if-else and for / calls of separately modelled validators; tests split at
+   and/or/not/any(...) into atoms named by their source text) and writes it into Extracted/Facts.v (c18_skeletons).
+   Model/ValidationSkel.v decodes and EXECUTES that skeleton over the input abstraction; the atoms' meaning is the
+   hand-written part.  The theorems say: for EVERY input, executing the skeleton extracted from the current source
+   gives exactly the hand-written api_* decision.  A guard that is moved into another branch or loop, reordered,
+   dropped, duplicated or wrapped in a new condition changes the skeleton (first obligation of each pair below) even
+   when no guard text changes; an edited atomic test no longer resolves in the atom table. *)
+Close Scope string_scope.
+From CKT Require Import Model.ValidationSkel Proofs.ValidationSkelP.
+Open Scope string_scope.
+Example skeleton_simulate : skeleton_of "utils.simulation:simulate_statevector_outcomes" = Some sk_simulate.
+Proof. reflexivity. Qed.
+Example skeleton_reconstruct : skeleton_of "cutting_reconstruction:reconstruct_expectation_values" = Some sk_reconstruct.
+Proof. reflexivity. Qed.
+Example skeleton_partition_problem : skeleton_of "cutting_decomposition:partition_problem" = Some sk_partition_problem.
+Proof. reflexivity. Qed.
+
+Theorem c18_skel_simulate : forall sk i,
+  skeleton_of "utils.simulation:simulate_statevector_outcomes" = Some sk -> run_simulate sk i = api_simulate i.
+Proof. intros sk i H. rewrite skeleton_simulate in H. inversion H. apply skel_simulate. Qed.
+Theorem c18_skel_reconstruct : forall sk i,
+  skeleton_of "cutting_reconstruction:reconstruct_expectation_values" = Some sk -> run_reconstruct sk i = api_reconstruct i.
+Proof. intros sk i H. rewrite skeleton_reconstruct in H. inversion H. apply skel_reconstruct. Qed.
+(* pp_wf: the abstraction carries one support entry per observable (checked on every correspondence case) *)
+Theorem c18_skel_partition_problem : forall sk i,
+  skeleton_of "cutting_decomposition:partition_problem" = Some sk -> pp_wf i ->
+  run_partition_problem sk i = api_partition_problem i.
+Proof. intros sk i H W. rewrite skeleton_partition_problem in H. inversion H. now apply skel_partition_problem. Qed.
+(* non-vacuity: a well-formed input on which the executed skeleton refuses at the LAST guard (idle group) *)
+Example c18_ex_skel_pp :
+  let i := mkPp 2 (Some [Some 0; None]) (Some [(2, 0)]) 0 0 [mkG (KOp xd) [0]] [[1]] in
+  pp_wf i /\ run_partition_problem sk_partition_problem i = Refused.
+Proof. split; reflexivity. Qed.
+(* the C18-r3-2 shape: with the condition guard moved into the gate branch a conditioned reset is executed *)
+Example c18_ex_skel_moved_guard :
+  let moved := [SFor "inst in qc.data"
+                  [SIf (GAtom "opname in ('measure', 'reset')") []
+                     [SIf (GAtom "inst.operation.condition_bits") [SRaise] [];
+                      SIf (GAtom "len(inst.clbits) != 0") [SRaise] []]]; SReturn] in
+  run_simulate moved [mkSim true true 0] = Proceeds /\ api_simulate [mkSim true true 0] = Refused.
+Proof. split; reflexivity. Qed.
+Print Assumptions c18_skel_simulate. Print Assumptions c18_skel_reconstruct. Print Assumptions c18_skel_partition_problem.
